@@ -97,6 +97,10 @@ where
     }
 
     fn last(&self) -> Option<T> {
+        if self.q_vals.is_empty() {
+            // nothing has been delivered yet
+            return None;
+        }
         if self.last == self.min && self.last == self.max {
             Some(T::zero())
         } else {
